@@ -6,6 +6,7 @@ import (
 	"runtime"
 	"sort"
 	"strings"
+	"time"
 
 	"github.com/DrmagicE/gmqtt"
 	"github.com/DrmagicE/gmqtt/config"
@@ -37,6 +38,7 @@ type c09Msg struct {
 	reqStamp int64
 	pubAck   int64 // PUBACK / PUBREC written by the broker
 	pubrel   int64 // publisher sent PUBREL
+	pubcomp  int64 // PUBCOMP written by the broker
 	subDone  int64 // subscriber sent its final ack (PUBACK / PUBCOMP)
 	subRec   int64 // subscriber sent PUBREC (QoS2)
 }
@@ -69,6 +71,7 @@ func c09DB(c *explore.Ctx, cmds []harness.RespCmd) (rd *harness.Respd, db int) {
 			return nil, 0
 		}
 		c09Respd = r
+		r.Virtual() // inside executions gmqtt reaches it through in-scheduler pipes
 	}
 	c09Runs++
 	if c09Runs%200 == 0 {
@@ -97,7 +100,7 @@ func c09Phase1(c *explore.Ctx, seq []int, cas func() any) (*c09Hist, int) {
 		return nil, 0
 	}
 	defer rd.DropDB(db)
-	ok := execBody(c, "C09", cas, func() {
+	body := func() {
 		w := harness.NewWorld(c09Config(rd.Addr(), db), server.Hooks{})
 		if w.InitErr != nil {
 			c.Violate("startup", "init-fails-on-empty-store", cas(), "Init succeeds", w.InitErr.Error())
@@ -235,6 +238,7 @@ func c09Phase1(c *explore.Ctx, seq []int, cas func() any) (*c09Hist, int) {
 				m.pubrel = vsched.Stamp()
 				P.Send(&refmqtt.Packet{Type: refmqtt.PUBREL, PacketID: m.pid})
 				vsched.Settle()
+				m.pubcomp = stampOf(P, refmqtt.PUBCOMP, m.pid)
 			case 8:
 				syncDeliveries()
 				if !sOn || len(pending) == 0 {
@@ -296,12 +300,68 @@ func c09Phase1(c *explore.Ctx, seq []int, cas func() any) (*c09Hist, int) {
 		if p := w.SwallowedPanic(); p != "" {
 			c.Violate("no-panic", "recovered: "+trimTo(p, 90), cas(), "no panic", p)
 		}
-	})
+	}
+	ok := true
+	if c09Inline {
+		body() // already inside an execution of the schedule search
+	} else {
+		ok = execBody(c, "C09", cas, body)
+	}
 	if !ok {
 		return nil, applied
 	}
 	h.journal = append([]harness.RespCmd{}, rd.Journal...)
 	return h, applied
+}
+
+// c09Inline: c09Phase1 is being run as the body of a schedule search (E3) instead of
+// as an execution of its own.
+var c09Inline bool
+
+// c09Schedules: short histories are run under every schedule with <=1 deviation (the
+// storage commands and the acknowledgements are issued by different goroutines, so their
+// relative order is a matter of scheduling), and every crash point of every such
+// execution is evaluated like those of the default schedule.
+func c09Schedules(c *explore.Ctx) {
+	hists := [][]int{{0, 1, 4, 6, 7}, {0, 1, 4, 5, 8}, {0, 1, 4, 6, 7, 8}}
+	if c.Quick() {
+		hists = hists[:2]
+	}
+	for hi, seq := range hists {
+		seq := seq
+		var h *c09Hist
+		applied := 0
+		names := make([]string, len(seq))
+		for i, e := range seq {
+			names[i] = c09Events[e]
+		}
+		var choices []int
+		cas := func() any {
+			return map[string]any{"seq": append([]int{}, seq...), "events": names, "schedule_choices": choices, "deviation_bound": 1}
+		}
+		explore.DFS(c, explore.DFSConfig{Name: fmt.Sprintf("c09-schedules-%d", hi), Bound: 1, ShardDepth: 1,
+			Body: func() {
+				c09Inline = true
+				defer func() { c09Inline = false }()
+				h, applied = c09Phase1(c, seq, cas)
+			},
+			Check: func(r *vsched.Result, ch []int) {
+				choices = ch
+				if r.Panic != "" {
+					c.Violate("no-panic", panicClass(r.Panic), cas(), "no panic", firstLines(r.Panic, 12))
+					return
+				}
+				if r.Deadlock || h == nil || applied < len(seq) {
+					return
+				}
+				c.Count("schedules_with_crash_points", 1)
+				c.Count("distinct_nontrivial", int64(len(h.journal)))
+				for k := 0; k <= len(h.journal); k++ {
+					c09Phase2(c, h, k, cas, true)
+					c09Phase2(c, h, k, cas, false)
+				}
+			}})
+	}
 }
 
 // c09Phase2 restarts a fresh broker on the store as it was after k journal commands.
@@ -317,6 +377,7 @@ func c09Phase2(c *explore.Ctx, h *c09Hist, k int, cas0 func() any, resend bool) 
 		m := cas0().(map[string]any)
 		m["crash_after_commands"] = k
 		m["publisher_retransmits_publish_after_restart"] = resend
+		m["downtime_minutes"] = map[bool]int{true: 90, false: 0}[resend]
 		m["journal_length"] = len(h.journal)
 		if k > 0 {
 			m["last_command_before_crash"] = h.journal[k-1].String()
@@ -334,6 +395,12 @@ func c09Phase2(c *explore.Ctx, h *c09Hist, k int, cas0 func() any, resend bool) 
 	defer rd.DropDB(db)
 	c.Count("evaluations", 1)
 	execBody(c, "C09", cas, func() {
+		if resend {
+			// the broker comes back 90 minutes later: longer than the sessions' expiry interval
+			// (which is measured from the end of a connection, not from CONNECT, and the broker
+			// was not there to see any connection end), shorter than the message lifetime
+			vsched.Advance(90 * time.Minute)
+		}
 		w := harness.NewWorld(c09Config(rd.Addr(), db), server.Hooks{})
 		if w.InitErr != nil {
 			c.Violate("startup", "init-fails-on-intermediate-store", cas(), "Init succeeds", w.InitErr.Error())
@@ -497,6 +564,35 @@ func c09Phase2(c *explore.Ctx, h *c09Hist, k int, cas0 func() any, resend bool) 
 		// identifiers as free again: PUBREL -> PUBCOMP, and a new message sent under the same
 		// identifier is forwarded (not taken for a duplicate of the pre-crash one)
 		if PP != nil && SS != nil && (have[c09Sub+"|t"] || have[c09Sub+"|$share/g/t"]) {
+			// flows the publisher saw completed (PUBCOMP written before the crash): their
+			// identifiers are free for the publisher, whatever the broker had stored by then
+			for _, m := range h.msgs {
+				if m.qos != 2 || !before(m.pubcomp) {
+					continue
+				}
+				SS.Recv()
+				fresh := fmt.Sprintf("reuse-%d", m.pid)
+				PP.Send(&refmqtt.Packet{Type: refmqtt.PUBLISH, Topic: "t", QoS: 2, PacketID: m.pid, Payload: []byte(fresh)})
+				vsched.Settle()
+				PP.Send(&refmqtt.Packet{Type: refmqtt.PUBREL, PacketID: m.pid})
+				vsched.Settle()
+				n := 0
+				for _, r := range SS.Recv() {
+					if r.P != nil && r.P.Type == refmqtt.PUBLISH && string(r.P.Payload) == fresh {
+						n++
+						if r.P.QoS == 1 {
+							SS.Send(&refmqtt.Packet{Type: refmqtt.PUBACK, PacketID: r.P.PacketID})
+						} else if r.P.QoS == 2 {
+							SS.Send(&refmqtt.Packet{Type: refmqtt.PUBREC, PacketID: r.P.PacketID})
+						}
+					}
+				}
+				vsched.Settle()
+				if n == 0 {
+					c.Violate("qos2-dedup", "identifier-of-a-flow-completed-before-the-crash-taken-for-a-duplicate-after-restart", cas(), "new message under the completed identifier forwarded", fresh+" not forwarded")
+					return
+				}
+			}
 			for _, m := range resent {
 				PP.Send(&refmqtt.Packet{Type: refmqtt.PUBREL, PacketID: m.pid})
 				vsched.Settle()
@@ -585,7 +681,7 @@ func c09Run(c *explore.Ctx, seq []int) int {
 
 func runC09(c *explore.Ctx) {
 	c.Level = "fault_enumeration"
-	c.Rule = "E4: client histories (two persistent v5 sessions, optionally two connected clients without session expiry whose records sit next to them in the store: subscribe incl. a shared filter with subscription id, unsubscribe, QoS1/QoS2 publishes, PUBREL, subscriber ack steps, disconnect/reconnect) are enumerated as a tree (directed prefix + depth) on a real in-process broker using the redis persistence backend over an in-process RESP server that journals every write command with a logical stamp. For EVERY prefix of the journal (a crash between two storage commands) the store is rebuilt, a fresh broker is started on it, and checked: start-up succeeds; sessions whose CONNACK was sent before the crash exist under their id; subscriptions equal the SUBACK/UNSUBACK-acknowledged ones; publisher-acknowledged, subscriber-unacknowledged QoS>0 messages are redelivered on Clean Start 0; QoS2 ids awaiting PUBREL are still recognised, their flows complete on the restarted broker (PUBREL -> PUBCOMP) and a new message under the completed identifier is forwarded. evaluations = restarted brokers; distinct_nontrivial = journal commands (distinct crash points)."
+	c.Rule = "E4: client histories (two persistent v5 sessions, optionally two connected clients without session expiry whose records sit next to them in the store: subscribe incl. a shared filter with subscription id, unsubscribe, QoS1/QoS2 publishes, PUBREL, subscriber ack steps, disconnect/reconnect) are enumerated as a tree (directed prefix + depth) on a real in-process broker using the redis persistence backend over an in-process RESP server that journals every write command with a logical stamp. For EVERY prefix of the journal (a crash between two storage commands) the store is rebuilt, a fresh broker is started on it, and checked: start-up succeeds; sessions whose CONNACK was sent before the crash exist under their id; subscriptions equal the SUBACK/UNSUBACK-acknowledged ones; publisher-acknowledged, subscriber-unacknowledged QoS>0 messages are redelivered on Clean Start 0; QoS2 ids awaiting PUBREL are still recognised, their flows complete on the restarted broker (PUBREL -> PUBCOMP) and a new message under the completed identifier is forwarded. E3+E4: two (thorough three) short histories are also run under every schedule with <=1 deviation and every crash point of each such execution is evaluated the same way (a storage command and the acknowledgement that depends on it are issued by different goroutines). evaluations = restarted brokers; distinct_nontrivial = journal commands (distinct crash points)."
 	c.Trusted = []string{"respd: fidelity to redis for the 14 commands gmqtt issues (implemented from the command reference; real redis is not installed)", "vsched default schedule, logical stamps ordering storage commands and packets"}
 	c.Assumptions = []string{"redis executes each command atomically, so crash points are command boundaries (pipelined commands are split)", "an operation whose acknowledgement had not been sent before the crash may be in either state"}
 	if rc := replayCase(c); rc != nil {
@@ -619,6 +715,7 @@ func runC09(c *explore.Ctx) {
 		})
 	}
 	treeUnits(c, "initial", len(c09Events), depth+1, func(seq []int) int { return c09Run(c, seq) })
+	c09Schedules(c)
 	if c.Get("evaluations") > 0 {
 		c.Sample(map[string]any{"note": "every history is restarted after each prefix of its storage-command journal"})
 	}
